@@ -20,11 +20,17 @@ def otsu(x: np.ndarray, remove_nan: bool = False) -> float:
     hist, bin_edges = np.histogram(x, bins=256)
     bin_centers = (bin_edges[1:] + bin_edges[:-1]) / 2.0
 
+    # Class means in units of a power of two near the data range (an exact
+    # rescaling), the squared difference otherwise over/underflows for very
+    # large or small data and every cut looks the same
+    _, exponent = np.frexp(np.amax(np.abs(bin_edges[[0, -1]])))
+    centers = np.ldexp(bin_centers, -exponent)
+
     w1 = np.cumsum(hist)
     w2 = np.cumsum(hist[::-1])[::-1]
 
-    u1 = np.cumsum(hist * bin_centers) / w1
-    u2 = (np.cumsum((hist * bin_centers)[::-1]) / w2[::-1])[::-1]
+    u1 = np.cumsum(hist * centers) / w1
+    u2 = (np.cumsum((hist * centers)[::-1]) / w2[::-1])[::-1]
 
     i = np.argmax(w1[:-1] * w2[1:] * (u1[:-1] - u2[1:]) ** 2)
     return bin_centers[i]
